@@ -140,7 +140,7 @@ Lemma register_extension_ok : forall vt r V n xt user cls r',
   register_extension vt r V n xt user cls = Ok r' -> reg_insert r V Extensions n cls = Ok r'.
 Proof.
   unfold register_extension. intros.
-  destruct (negb (validate_type vt V n)); [discriminate|].
+  destruct (negb (validate_ext_name vt V n)); [discriminate|].
   destruct (version_eqb V V21 && _); [discriminate|].
   destruct (is_nil _ || _); [discriminate|].
   destruct (negb (validate_props _ _ _ _)); [discriminate | auto].
@@ -165,7 +165,7 @@ Lemma register_extension_raise : forall vt r V n xt user cls e,
   register_extension vt r V n xt user cls = Raise e -> e = EValue \/ (e = EDuplicate /\ exists c0, lookup r V Extensions n = Some c0).
 Proof.
   unfold register_extension. intros.
-  destruct (negb (validate_type vt V n)); [inversion H; auto|].
+  destruct (negb (validate_ext_name vt V n)); [inversion H; auto|].
   destruct (version_eqb V V21 && _); [inversion H; auto|].
   destruct (is_nil _ || _); [inversion H; auto|].
   destruct (negb (validate_props _ _ _ _)); [inversion H; auto|].
@@ -580,4 +580,51 @@ Proof.
   intros. unfold parse_dispatch, effective_version.
   destruct (version_text_nonempty V) as [c [v E]]. rewrite E, <- E.
   rewrite cft_objects, cft_observables, H, H0. reflexivity.
+Qed.
+
+(* ---------------- histories: first registration wins, for ever ---------------- *)
+
+Lemma state_after_register : forall vt r q ops,
+  state_after vt r (Register q :: ops) = state_after vt (fst (decorate vt r q)) ops.
+Proof. intros. rewrite state_after_cons, step_register. reflexivity. Qed.
+
+(* a registration that succeeded at its point of the history decides the lookup of its
+   name at every later point *)
+Lemma history_registration_sticks : forall vt r ops1 q ops2,
+  snd (decorate vt (state_after vt r ops1) q) = Done ->
+  lookup (state_after vt r (ops1 ++ Register q :: ops2)) (r_ver q) (r_kind q) (r_name q) = Some (r_cls q).
+Proof.
+  intros vt r ops1 q ops2 D. rewrite state_after_app, state_after_register.
+  apply history_grows.
+  destruct (decorate vt (state_after vt r ops1) q) as [r' o] eqn:E. simpl in *. subst o.
+  apply reg_exact_lemma in E. apply E.
+Qed.
+
+(* ... and every later attempt to take the same (version, category, name) is refused *)
+Lemma history_exclusive : forall vt r ops1 q ops2 q',
+  snd (decorate vt (state_after vt r ops1) q) = Done ->
+  (r_ver q', r_kind q', r_name q') = (r_ver q, r_kind q, r_name q) ->
+  exists e, snd (decorate vt (state_after vt r (ops1 ++ Register q :: ops2)) q') = Failed e.
+Proof.
+  intros vt r ops1 q ops2 q' D K.
+  pose proof (history_registration_sticks vt r ops1 q ops2 D) as L.
+  inversion K as [[K1 K2 K3]]. rewrite <- K1, <- K2, <- K3 in L.
+  destruct (reg_exclusive_lemma vt _ q' _ L) as [e [F _]]. eauto.
+Qed.
+
+(* a name that no registration of the history carries (as its own name or as
+   extension_name=) looks up exactly as before the history *)
+Lemma history_frame : forall vt ops r V c n,
+  (forall q, In (Register q) ops ->
+     (r_ver q, r_kind q, r_name q) <> (V, c, n) /\ (forall e, side_entry q = Some e -> key_of e <> (V, c, n))) ->
+  lookup (state_after vt r ops) V c n = lookup r V c n.
+Proof.
+  induction ops as [|o ops IH]; intros r V c n H.
+  - reflexivity.
+  - rewrite state_after_cons, IH by (intros q I; apply H; right; exact I).
+    destruct o; try reflexivity.
+    rewrite step_register. destruct (H q (or_introl eq_refl)) as [H1 H2].
+    destruct (decorate vt r q) as [r' [|e]] eqn:D; simpl.
+    + apply reg_exact_lemma in D. destruct D as [_ [_ D]]. apply D; auto.
+    + apply reg_failed_frame_lemma in D. destruct D as [_ D]. apply D. exact H2.
 Qed.
